@@ -29,7 +29,7 @@ ASSUMPTIONS = [
     "both sides use the same max-APDU size (capability mismatches are judged under C12)",
 ]
 BOUNDS = {
-    "quick": "A: max-APDU 50 all lengths 0..202 x {request,response,both}, other sizes at segment boundaries, window pairs {1,2,3,8}^2 + diagonal, 257 segments; B: 2..9 segments, windows {1,2,3,8}; C: d<=2 on 3- and 5-segment transfers",
+    "quick": "A: max-APDU 50 all lengths 0..202 x {request,response,both}, other sizes at segment boundaries, window pairs {1,2,3,8}^2 + diagonal, 257 segments; B: 2..9 segments, windows {1,2,3,4,8}^2, single faults at the wrap of 260-segment transfers, library default timers; C: d<=2 on 3- and 5-segment transfers, windows 1..4",
     "thorough": "A: all six sizes all lengths 0..4*seg+2, all 64 window pairs at 2..9 segments, 255/256/257/300 segments; B: all 64 window pairs at 2..9 segments; C: d<=3",
 }
 
@@ -180,7 +180,7 @@ def a_shard(item, deadline):
 def fault_cfgs(tier):
     single, multi = [], []
     if tier == "quick":
-        wins = [(a, b) for a in (1, 2, 3, 8) for b in (1, 2, 3, 8) if a == b or (a, b) in ((1, 8), (8, 1), (2, 3), (3, 2))]
+        wins = [(a, b) for a in (1, 2, 3, 4, 8) for b in (1, 2, 3, 4, 8)]
         ks = (2, 3, 4, 5, 9)
     else:
         wins = [(a, b) for a in range(1, 9) for b in range(1, 9)]
@@ -201,7 +201,7 @@ def fault_cfgs(tier):
     # two segment sizes above 50 for single faults
     single.append(Cfg(c={"maxapdu": 128, "retries": 3}, s={"maxapdu": 128, "retries": 3}, reqs=[(300, 300)]))
     d = 2 if tier == "quick" else 3
-    for w in ((2, 3) if tier == "quick" else (1, 2, 3, 4)):
+    for w in ((1, 2, 3, 4) if tier == "quick" else (1, 2, 3, 4, 8)):
         for k in (3, 5):
             for reqs in ([(rq(k), 0)], [(0, rs(k))]):
                 multi.append((Cfg(c={"window": w, "retries": 2}, s={"window": w, "retries": 2}, reqs=reqs, reorder=2, dupcap=1), d))
